@@ -86,6 +86,22 @@ impl G {
         }
     }
 
+    /// The accessible memory is large enough that whole-memory operations (clone,
+    /// rollback diff, ==, full reads) cost tens of milliseconds.
+    fn large(&self) -> bool {
+        self.hwm + (SIZE - self.hp) > (1 << 20)
+    }
+
+    /// Spend one unit of the heavy budget if there is one.
+    fn afford(&mut self) -> bool {
+        if self.heavy_left > 0 {
+            self.heavy_left -= 1;
+            true
+        } else {
+            false
+        }
+    }
+
     fn cap(&self) -> u64 {
         if self.big { WRITE_CAP_BIG } else { WRITE_CAP_SMALL }
     }
@@ -299,7 +315,10 @@ impl G {
                 Op::Verify { addr, len }
             }
             3 => {
-                let (addr, len) = self.range();
+                let (addr, mut len) = self.range();
+                if len > (1 << 20) && self.accessible(addr, len) && !self.afford() {
+                    len = 1 << 16;
+                }
                 Op::Read { addr, len }
             }
             4 => {
@@ -342,7 +361,7 @@ impl G {
             }
             10 => {
                 let cap = if self.big { 2 } else { MAX_SNAPSHOTS };
-                if self.snaps.len() < cap {
+                if self.snaps.len() < cap && (!self.large() || self.afford()) {
                     self.snaps.push((self.hwm, self.hp));
                     Op::Snapshot
                 } else {
@@ -354,6 +373,12 @@ impl G {
                 let snap = self.g.below(MAX_SNAPSHOTS as u64) as u8;
                 if !self.snaps.is_empty() {
                     let (shwm, shp) = self.snaps[snap as usize % self.snaps.len()];
+                    // the diff walks min(stack extents) + the snapshot's heap byte by byte
+                    let walk = shwm.min(self.hwm) + (SIZE - shp);
+                    if walk > (1 << 20) && !self.afford() {
+                        let (addr, len) = self.range();
+                        return Op::Verify { addr, len };
+                    }
                     // performed only when the heap does not have to grow and (as the code
                     // stands) the snapshot's stack extent is not above the current one
                     if shp >= self.hp && shwm <= self.hwm && (shwm, shp) != (self.hwm, self.hp) {
@@ -364,7 +389,17 @@ impl G {
                 }
                 Op::Rollback { snap }
             }
-            12 => Op::EqSnap { snap: self.g.below(MAX_SNAPSHOTS as u64) as u8 },
+            12 => {
+                let snap = self.g.below(MAX_SNAPSHOTS as u64) as u8;
+                if self.large() && !self.snaps.is_empty() {
+                    let (shwm, shp) = self.snaps[snap as usize % self.snaps.len()];
+                    if shwm + (SIZE - shp) > (1 << 20) && !self.afford() {
+                        let (addr, len) = self.range();
+                        return Op::Verify { addr, len };
+                    }
+                }
+                Op::EqSnap { snap }
+            }
             _ => {
                 if self.big {
                     let (addr, len) = self.range();
@@ -431,11 +466,11 @@ pub fn generate(rng: &mut Rng, tier: Tier) -> Scenario {
     let nsessions = if big { g.range(1, 3) } else { g.range(1, 6) } as usize;
     let max_ops = if big { 20 } else { *g.pick(&[6u64, 12, 24, 40, 64]) };
     let mut sessions = Vec::with_capacity(nsessions);
-    let mut heavy_budget: u32 = if big { g.range(1, 3) as u32 } else { 0 };
+    let mut heavy_budget: u32 = if big { g.range(2, 4) as u32 } else { 0 };
     for i in 0..nsessions {
         let nops = g.range(1, max_ops) as usize;
         let pick = if faulty && i > 0 && f.below(4) != 0 { 1 + f.below(6) as u8 } else { 0 };
-        let heavy = if big { heavy_budget.min(1 + g.below(2) as u32) } else { 0 };
+        let heavy = if big { heavy_budget.min(1 + g.below(3) as u32) } else { 0 };
         heavy_budget -= heavy;
         let ops = session_ops(&mut g, big, heavy, nops);
         sessions.push(Session { task: s.below(ntasks as u64) as u8, pick, ops });
